@@ -107,9 +107,7 @@ class Unit:
 
     def __init__(self, world, osn, lmax=2):
         self.world, self.osn = world, osn
-        # nested heap values (list<string>, list<list<u8>>, list<record{string}>) keep the bound 2 in every tier:
-        # measured: with bound 3 the CBMC instance of such a world exceeds the 120 s cap (SAT instance > 2M clauses)
-        self.lmax = lmax if world.heap_depth() <= 1 else min(lmax, 2)
+        self.lmax = lmax
         self.opts = wit.OPTION_SETS[osn]
         self.dir = os.path.join(WORK, "gen", osn, world.type_class)
         self.harness_c = os.path.join(self.dir, "harness.c")
@@ -150,13 +148,12 @@ def members_of(u, prop_id):
 
 
 def entries_of(u, prop_id):
-    """[(cbmc entry function, [harnesses it runs])].  Worlds without heap values: one run decides every harness (a nondet
-    selector picks one; the CBMC front end is paid once).  Worlds with strings/lists: one run per harness (the SAT
-    instance of the merged program grows faster than the sum of its parts)."""
+    """[(cbmc entry function, [harnesses it runs])].  One CBMC run decides every harness of the unit: a nondet selector picks
+    which one runs (the CBMC front end and library are paid once).  CGEN_SPLIT=1 runs one CBMC process per harness instead."""
     ms = members_of(u, prop_id)
     if not ms:
         return []
-    if u.world.uses("list") or u.world.uses("string"):
+    if os.environ.get("CGEN_SPLIT"):
         return [(h["name"], [h]) for h in ms]
     return [("h_all_c10" if prop_id == "C10" else "h_all_c11", ms)]
 
@@ -366,8 +363,7 @@ def base_outcome(prop_id, tier):
     out.bounds = {
         "worlds": "enumerated (cgen/wit.py corpus(%s)): one world per type class, each with an imported and an exported `f`" % tier,
         "values": "every C value / every reference-encoded core argument and return area: nondet (all bit patterns; floats as bit patterns incl. NaN payloads)",
-        "list_string_length": "nondet <= %d (<= 2 for nested heap values such as list<string>, list<list<u8>>: measured, bound 3 exceeds the 120 s cap); "
-                              "contents nondet" % lmax,
+        "list_string_length": "nondet <= %d at every nesting level; contents nondet" % lmax,
         "unwind": "length bound + 2 with --unwinding-assertions",
         "data_layout": "cbmc --32 --little-endian: sizeof(void*) == 4, uint64_t 8-aligned (wasm32)",
         "option_sets": wit.option_sets(tier),
@@ -384,7 +380,8 @@ def base_outcome(prop_id, tier):
     ]
     out.trusted_base = [
         "cgen/canon.py: reference of CanonicalABI.md (alignment, size, discriminant size, payload offset, flattening + join, 16/1 flat limits)",
-        "cgen/hgen.py: reference encoder/decoder/comparer generator (mk/eqv/stm/eqm/lwf/eqf/fre per type) and the harness conventions",
+        "cgen/hgen.py: reference encoder/decoder/comparer generator (mk/eqi/sti/eqmi/lwi/eqfi/fre per type, driven by the abstract input stream) "
+        "and the harness conventions",
         "CBMC 6.11 (--32 --little-endian --pointer-check --bounds-check --memory-leak-check, malloc never fails)",
         "exprsmt/cinc: libc header shim for the 32-bit data model",
         "gcc -m64 -fsanitize=address for native replays",
@@ -393,7 +390,9 @@ def base_outcome(prop_id, tier):
         "values: bool in {0,1}, char is a Unicode scalar value, enum/variant discriminants < number of cases, flags have only defined bits, list lengths <= bound, "
         "handle indices != 0 (index 0 of a canonical-ABI handle table is reserved)",
         "the host encodes exactly what the specification's lowering produces (zero padding of unused variant slots, zero-extended joins)",
-        "host allocations go through the generated cabi_realloc; malloc never returns NULL",
+        "host allocations: parameter records through the generated cabi_realloc; list/string buffers are fresh blocks of n * sizeof(C element) bytes "
+        "(asserted equal to the canonical element size); for n == 0 a non-null address that is not a heap block (cabi_realloc returns the integer `align`; "
+        "the harness hands out the address of a static dummy, see cgen/hgen.py); malloc never returns NULL",
         "an empty list/string owns no heap block (C backend README: `len == 0` => nothing to free)",
     ]
     out.functions_encoded = [vlib.source_span(f, pat, None, 1200) for f, pat in SPANS]
